@@ -40,7 +40,7 @@ def suite_summary(wt):
         for l in blk.split("\n"):
             if l.strip():
                 names.add(l.strip())
-    return lines, sorted(names)
+    return lines, ["%d failing test names" % len(names)]
 
 
 def main():
